@@ -188,9 +188,146 @@ Theorem C17_lex_end_tag_partial :
 Proof. exact InstXmlLex.xml_end_item_lex. Qed.
 Print Assumptions C17_lex_end_tag_partial.
 
-(* What is still missing for gap (1): comments, processing instructions and the doctype are not
-   lexed here; the per-item theorems are not yet chained over a whole item list (each ends in the
-   Data state with the rest of the input, where the next begins; character tokens arrive split
-   per character, which the tree builder does not see - Props/C15.v,
-   C15_tree_builder_independent_of_character_token_splitting); exact_errors = false and the
-   chunked queue are related to this reference semantics in TokIR/BulkSim.v and QueueSim.v. *)
+(* ---------------------------------------------------------------------------------------------
+   Gap (1) closed for the remaining items and for whole documents (XmlNs/XLexMisc.v, XLexDoc.v,
+   XUnsrc.v, XLexTree.v, XLexHyps.v, XLexRound.v; eighteen more arm bodies, XLexMisc.xml_misc_bodies,
+   discharged on the regenerated table in Inst/InstXmlLex.v).
+   Side conditions, on the text of the node (all of them hold for a node this tokenizer produced,
+   with the three exceptions listed below):
+   - every character of a comment, of a PI target / data and of a doctype name is neither U+000D
+     nor U+0000 ([pre_ok]; the input preprocessing never lets them through); a reported character
+     (control character, noncharacter) is allowed and costs one parse-error token;
+   - comment ([comment_ok]): the text does not start with '>' or '->' and does not contain '-->'
+     or '--!>' - stated as: the ten-mode automaton [cm_next] of the comment states never closes
+     the comment before its end.  '--' inside, a trailing '-', '<!--' inside (one parse error) are
+     all fine.  Outside: the serializer writes the text RAW, so <!-- --> around a text with '-->'
+     ends early; such a comment cannot come from parsing - it is a limitation of the serializer
+     for trees built by hand (the Rust code has no check either);
+   - PI ([pi_target_ok], [pi_data_ok]): the target is not empty, has no white space and no '?'
+     after its first character; the data has no '?' and does not start with white space.
+     Outside: '?>' inside the data ends the PI early (serializer limitation for hand-built trees);
+     data with leading white space comes back without it - and CAN come from parsing:
+     <?t? x?> is read as target t, data " x" (the quirk of the PiAfter state), written as
+     <?t  x?>, read back as data "x";
+   - doctype ([doctype_name_ok]): the name is not empty, has no white space, no '>' and no ASCII
+     upper-case letter (the tokenizer lower-cases doctype names: a hand-built doctype R comes back
+     as r).  The empty name (from <!DOCTYPE>) does round-trip in the Rust code but is written
+     <!DOCTYPE > and read back with the name absent: outside this theorem. *)
+From HV Require XmlNs.XLexMisc XmlNs.XLexDoc XmlNs.XUnsrc XmlNs.XLexTree XmlNs.XLexHyps XmlNs.XLexRound XmlNs.XSplit.
+
+(* (i) <!--text--> from the Data state: the parse errors of [comment_toks] (reported characters, '<!--'
+   inside), then ONE comment token with exactly the text; back in the Data state, nothing else changed *)
+Theorem C17_lex_comment :
+  forall simd c1 sk s b cu tk tn ta an av rest o k,
+  XLexMisc.bg_clean b -> XLexMisc.comment_ok s = true -> exists o' k',
+    InstXmlLex.xml_steps simd c1 sk
+      (XLexBase.mkM b IR.XData false cu false None tk tn ta an av ([60; 33; 45; 45] ++ s ++ [45; 45; 62] ++ rest) o k)
+      (XLexBase.mkM b IR.XData false 62 false None tk tn ta an av rest o' k') /\
+    XLexBase.otoks o' = rev (XLexMisc.comment_toks s) ++ XLexBase.otoks o.
+Proof. exact InstXmlLex.xml_comment_lex. Qed.
+Print Assumptions C17_lex_comment.
+
+(* the condition is the automaton's: [comment_toks s] ends in the comment token, everything before it
+   is a parse error *)
+Theorem C17_lex_comment_tokens :
+  forall s, XLexMisc.comment_toks s = XLexMisc.cm_errs XLexMisc.MS [] s ++ [Interp.TComment s] /\
+            forallb XLexTree.is_err (XLexMisc.cm_errs XLexMisc.MS [] s) = true.
+Proof. exact (fun s => conj eq_refl (XLexTree.cm_errs_err s XLexMisc.MS [])). Qed.
+Print Assumptions C17_lex_comment_tokens.
+
+(* <?target data?> *)
+Theorem C17_lex_pi :
+  forall simd c1 sk t d b cu tk tn ta an av rest o k,
+  XLexMisc.bg_clean b -> XLexMisc.pi_target_ok t = true -> XLexMisc.pi_data_ok d = true -> exists o' k',
+    InstXmlLex.xml_steps simd c1 sk
+      (XLexBase.mkM b IR.XData false cu false None tk tn ta an av ([60; 63] ++ t ++ [32] ++ d ++ [63; 62] ++ rest) o k)
+      (XLexBase.mkM b IR.XData false 62 false None tk tn ta an av rest o' k') /\
+    XLexBase.otoks o' = rev (XLexMisc.pi_toks t d) ++ XLexBase.otoks o.
+Proof. exact InstXmlLex.xml_pi_lex. Qed.
+Print Assumptions C17_lex_pi.
+
+(* <!DOCTYPE name> *)
+Theorem C17_lex_doctype :
+  forall simd c1 sk n b cu tk tn ta an av rest o k,
+  XLexMisc.bg_clean b -> XLexMisc.doctype_name_ok n = true -> exists o' k',
+    InstXmlLex.xml_steps simd c1 sk
+      (XLexBase.mkM b IR.XData false cu false None tk tn ta an av
+                    ([60; 33; 68; 79; 67; 84; 89; 80; 69; 32] ++ n ++ [62] ++ rest) o k)
+      (XLexBase.mkM b IR.XData false 62 false None tk tn ta an av rest o' k') /\
+    XLexBase.otoks o' = rev (XLexMisc.doctype_toks n) ++ XLexBase.otoks o.
+Proof. exact InstXmlLex.xml_doctype_lex. Qed.
+Print Assumptions C17_lex_doctype.
+
+(* The conditions on the TREE ([lex_hyps]: every element name passes tag_name_ok and etag_name_ok,
+   every attribute raw_ok, every declaration the serializer may write for a name of the tag raw_ok,
+   texts not empty and without U+0000, comments / PIs / doctype as above) give, for a document of the
+   round-trip shape, the per-item conditions for EVERYTHING the serializer writes, and character data
+   is always followed by markup. *)
+Theorem C17_tree_conditions_reach_every_item :
+  forall kids, rt_hyps kids = true -> XLexHyps.lex_hyps kids = true ->
+  forallb XLexTree.item_ok2 (ser_doc kids) = true /\ XLexDoc.text_sep (ser_doc kids) = true /\
+  XLexDoc.starts_with_markup (ser_doc kids) = true.
+Proof. exact XLexHyps.doc_items. Qed.
+Print Assumptions C17_tree_conditions_reach_every_item.
+
+(* (ii) the DRIVER of the reference semantics (Interp.drive over the flat queue, exact_errors = true,
+   on the regenerated table; the serializer's output as one chunk, then end of input; any setting of
+   discard_bom; a sink that asks for no script) with enough fuel suspends twice - end of the chunk,
+   end of the input - and has delivered exactly [flat_map lex_item (ser_doc kids)] and the EOF token:
+   per item the parse errors, then the token of the item; character data one token per character. *)
+Theorem C17_lex_document :
+  forall simd c1 sk, Interp.sk_resp sk = [] -> forall kids bom,
+  rt_hyps kids = true -> XLexHyps.lex_hyps kids = true ->
+  exists n, forall f, exists m',
+    InstXmlLex.xml_drive simd c1 sk (n + S f)%nat [] [serialize kids] (XLexDoc.init_m bom) [] =
+      (m', [Interp.SSuspend; Interp.SSuspend]) /\
+    rev (XLexBase.otoks (Interp.mout m')) = flat_map XLexDoc.lex_item (ser_doc kids) ++ [Interp.TEof].
+Proof. exact InstXmlLex.xml_doc_tokens. Qed.
+Print Assumptions C17_lex_document.
+
+(* ... which is the token list of C17_roundtrip_partial up to parse-error tokens (dropped by
+   [conv_toks], as process_token hands them to the error log), the cutting of character data
+   (C15_tree_builder_independent_of_character_token_splitting) and the ghost source of tag tokens,
+   which no rule of the builder reads (next theorem): both lists build the same tree *)
+Theorem C17_lexed_tokens_build_the_same_tree :
+  forall items, forallb XLexTree.item_ok2 items = true ->
+  map erase (parse_tokens (XLexTree.conv_toks (flat_map XLexDoc.lex_item items ++ [Interp.TEof]))) =
+  map erase (parse_raw (map item_rtoken items ++ [REof])).
+Proof. exact XLexTree.lexed_tree. Qed.
+Print Assumptions C17_lexed_tokens_build_the_same_tree.
+
+Theorem C17_tree_builder_ignores_tag_source :
+  (forall s t, XUnsrc.unsrc_s (step s t) = step (XUnsrc.unsrc_s s) (XUnsrc.unsrc_tok t)) /\
+  (forall l l', map XUnsrc.unsrc_tok l = map XUnsrc.unsrc_tok l' ->
+                map erase (parse_tokens l) = map erase (parse_tokens l')).
+Proof. exact (conj XUnsrc.un_step XUnsrc.unsrc_parse). Qed.
+Print Assumptions C17_tree_builder_ignores_tag_source.
+
+(* (iii) C17_roundtrip_through_tokenizer_partial: serializer model, then the tokenizer AS MODELLED IN TokIR
+   run by its driver on the regenerated table, then the tree builder model - the tree is rebuilt.
+   Full statement: forall x, let t := tree (parse x) in tree (parse (serialize t)) = t.
+   Hypotheses on the tree only: [rt_hyps] (shape, C17_roundtrip_partial) and [lex_hyps] (characters).
+   Partial because (a) the three models are tied to the Rust code by the correspondence checks, not
+   by proof; (b) the run is the reference semantics - flat queue, exact_errors = true, one chunk:
+   TokIR/QueueSim.v (chunked_is_reference_exact) and TokIR/BulkSim.v (bulk_chunked_reference) relate
+   the chunked queue and the default mode to it up to parse errors and the merging of character
+   tokens, which the builder does not see; (c) "t = tree (parse x)" is replaced by the two decidable
+   hypotheses: the check evaluates both on every tree the Rust parser produced and asserts
+   [lex_hyps] whenever [rt_hyps] holds, except for trees with a reported character in an element
+   or attribute name, an empty doctype name or a PI data starting with white space (see above).
+   Doctype public / system identifiers are outside the serializer API ([strip_ids]). *)
+Theorem C17_roundtrip_through_tokenizer_partial :
+  forall simd c1 sk, Interp.sk_resp sk = [] -> forall kids bom,
+  rt_hyps kids = true -> XLexHyps.lex_hyps kids = true ->
+  exists n, forall f, exists m',
+    InstXmlLex.xml_drive simd c1 sk (n + S f)%nat [] [serialize kids] (XLexDoc.init_m bom) [] =
+      (m', [Interp.SSuspend; Interp.SSuspend]) /\
+    map erase (parse_tokens (XLexTree.conv_toks (rev (XLexBase.otoks (Interp.mout m'))))) = map strip_ids kids.
+Proof. exact InstXmlLex.xml_roundtrip_through_tokenizer. Qed.
+Print Assumptions C17_roundtrip_through_tokenizer_partial.
+
+(* not vacuous: the example document of C17_nonvacuous satisfies both hypotheses *)
+Theorem C17_roundtrip_through_tokenizer_nonvacuous :
+  rt_hyps ex_doc2 = true /\ XLexHyps.lex_hyps ex_doc2 = true.
+Proof. exact (conj ex_doc2_hyps XLexRound.ex_doc2_lex_hyps). Qed.
+Print Assumptions C17_roundtrip_through_tokenizer_nonvacuous.
